@@ -78,7 +78,7 @@ def custom_tables(tier):
     import itertools
     from sqlparse import lexer
     alpha = spaces.LEX + ['é', '\x00', '\ud800', '{', '~', '\\']
-    n = 2 if tier == 'quick' else 3
+    n = 2
     texts = [''.join(t) for k in range(1, n + 1) for t in itertools.product(alpha, repeat=k)]
     info = {'configurations': [], 'texts_each': len(texts), 'cases': 0}
     viols = []
